@@ -9,12 +9,18 @@
    nb :: s and i is an index of s;  xprod T b idxs = prod_j T[b, idx_j];  tuple_at inds s = the s-th sampled index tuple;
    set_many ms is idx = idx with positions ms_j replaced by is_j;  operand_ok tr s x = triple x = (M, m, operand index) has
    m < len s, M a well-formed (J, s_m) matrix ((s_m, J) under transpose), J > 0;  outdim = J;
-   mm_coef tr L is idx = prod_j M_j[idx_{m_j}, is_j] (conjugate transpose under tr). *)
+   mm_coef tr L is idx = prod_j M_j[idx_{m_j}, is_j] (conjugate transpose under tr);
+   tensordot (Proofs/TenalgProofsTdotE.v): td_valid s1 s2 m1 m2 b1 b2 = both mode-list pairs pass the code's check (equal
+   lengths, modes in range, equal sizes pairwise) and the modes named on each tensor are pairwise distinct;  free1 / free2 = the
+   modes of tensor1 not contracted (batch modes included) / of tensor2 neither contracted nor batched, increasing;
+   td_shape = their sizes;  td_ia c o / td_ib c o = the index of tensor1 / tensor2 (contracted pair k gets c_k, a free mode its
+   entry of o, a batch mode of tensor2 the entry of its partner in tensor1). *)
 From Coq Require Import List Arith ZArith Ring_theory Permutation Lia.
 From TLV Require Import Base.Shape Base.PyList Base.Tensor Base.BigSum Model.Base Model.Tenalg
   Proofs.TenalgProofs Proofs.TenalgProofsKR Proofs.TenalgProofsEinsum Proofs.TenalgProofsInner
   Proofs.TenalgProofsOuter Proofs.TenalgProofsSample Proofs.TenalgProofsSort Proofs.TenalgProofsEinsumVec Proofs.TenalgProofsMulti Proofs.TenalgProofsEinsumInner
-  Proofs.TenalgProofsEinsumMttkrp Proofs.TenalgProofsEinsumKR Proofs.TenalgProofsEinsumOuter Proofs.TenalgProofsMultiGen Proofs.TenalgProofsMultiGen2 Proofs.TenalgProofsMemory.
+  Proofs.TenalgProofsEinsumMttkrp Proofs.TenalgProofsEinsumKR Proofs.TenalgProofsEinsumOuter Proofs.TenalgProofsMultiGen Proofs.TenalgProofsMultiGen2 Proofs.TenalgProofsMemory
+  Proofs.TenalgProofsTdotE Proofs.TenalgProofsTdotC Proofs.TenalgProofsEinsumMulti Proofs.TenalgProofsValidate Proofs.TenalgProofsTdotInner Proofs.TenalgProofsKRBcast.
 Import ListNotations.
 
 Definition ring_of {F} (Op : rops F) := ring_theory (r0 Op) (r1 Op) (radd Op) (rmul Op) (rsub Op) (ropp Op) (@eq F).
@@ -80,6 +86,27 @@ Theorem C02_khatri_rao_core : forall (F : Type) (Op : rops F), ring_of Op ->
       = rmul Op (rmul Op (kr_entry Op Ms' is_ r) (wv Op w r)) (maskv Op mask (ravel (map nrows Ms') is_)).
 Proof. exact @khatri_rao_spec. Qed.
 Print Assumptions C02_khatri_rao_core.
+
+(* the same with NumPy's scalar broadcast: weights (mask) with exactly R entries (one entry per row) OR with a single entry,
+   which scales the whole product [w_okb / mask_okb; wvb n w r = entry r if w has n entries, its only entry otherwise] *)
+Theorem C02_khatri_rao_core_broadcast : forall (F : Type) (Op : rops F), ring_of Op ->
+  forall (Ms : list (tensor F)) (w mask : option (tensor F)) (skip : option nat) (R : nat),
+  let Ms' := skipl skip Ms in
+  Ms' <> [] -> mats R Ms' -> w_okb w R -> mask_okb mask (prod (map nrows Ms')) ->
+  exists K, khatri_rao Op Ms w mask skip = Ok K /\ wf K /\ shape K = [prod (map nrows Ms'); R] /\
+    forall is_ r, inb (map nrows Ms') is_ -> r < R ->
+      get (r0 Op) K [ravel (map nrows Ms') is_; r]
+      = rmul Op (rmul Op (kr_entry Op Ms' is_ r) (wvb Op R w r)) (maskvb Op (prod (map nrows Ms')) mask (ravel (map nrows Ms') is_)).
+Proof. exact @khatri_rao_bcast_spec. Qed.
+Print Assumptions C02_khatri_rao_core_broadcast.
+
+Example C02_nonvacuous_khatri_rao_broadcast :
+  let A : tensor Z := mk [2; 2] [1; 2; 3; 4]%Z in
+  let B : tensor Z := mk [3; 2] [1; 2; 3; 4; 5; 6]%Z in
+  let w : tensor Z := mk [1] [5]%Z in let m : tensor Z := mk [1; 1] [-1]%Z in
+  skipl None [A; B] <> [] /\ mats 2 (skipl None [A; B]) /\ w_okb (Some w) 2 /\ mask_okb (Some m) (prod (map nrows (skipl None [A; B]))) /\
+  khatri_rao ZR [A; B] (Some w) (Some m) None = Ok (mk [6; 2] [-5; -20; -15; -40; -25; -60; -15; -40; -45; -80; -75; -120]%Z).
+Proof. exact khatri_rao_bcast_nonvacuous. Qed.
 
 (* KRON[(i_1..i_n), (j_1..j_n)] = prod_k A_k[i_k, j_k], any number of matrices, skip, reverse *)
 Theorem C02_kronecker_core : forall (F : Type) (Op : rops F), ring_of Op ->
@@ -322,6 +349,178 @@ Theorem C02_tensordot_core_batch_order : forall (F : Type) (Op : rops F) (A B : 
   tensordot Op A B m1 m2 (map fst l) (map snd l) = tensordot Op A B m1 m2 (map fst l') (map snd l').
 Proof. exact @tensordot_batch_order. Qed.
 Print Assumptions C02_tensordot_core_batch_order.
+
+(* batched tensordot, core backend (transpose, reshape, stacked matmul, reshape, final transpose), ANY contracted pairs
+   (m1[k], m2[k]) and batched pairs (b1[k], b2[k]) in any listing order:
+   R[o] = sum over c in the index space of the contracted sizes of A[td_ia c o] * B[td_ib c o], shape = sizes of the free modes
+   of tensor1 (batch modes in place) then of tensor2 *)
+Theorem C02_tensordot_core : forall (F : Type) (Op : rops F) (A B : tensor F) (m1 m2 b1 b2 : list nat),
+  wf A -> wf B -> 0 < prod (shape A) -> 0 < prod (shape B) ->
+  td_valid (shape A) (shape B) m1 m2 b1 b2 ->
+  exists R, tensordot Op A B m1 m2 b1 b2 = Ok R /\ wf R /\ shape R = td_shape m1 m2 b2 (shape A) (shape B) /\
+    forall o, inb (shape R) o ->
+      get (r0 Op) R o = ssum Op (permute 0 m1 (shape A))
+                    (fun c => rmul Op (get (r0 Op) A (td_ia m1 (ndim A) c o)) (get (r0 Op) B (td_ib m1 m2 b1 b2 (ndim A) (ndim B) c o))).
+Proof. exact @tensordot_core_spec. Qed.
+Print Assumptions C02_tensordot_core.
+
+(* einsum backend: the equation built by einsum_tenalg.tensordot, under the generic einsum semantics, is the same formula *)
+Theorem C02_tensordot_einsum : forall (F : Type) (Op : rops F), ring_of Op ->
+  forall (A B : tensor F) (m1 m2 b1 b2 : list nat),
+  td_valid (shape A) (shape B) m1 m2 b1 b2 ->
+  exists R, tensordot_e Op A B m1 m2 b1 b2 = Ok R /\ wf R /\ shape R = td_shape m1 m2 b2 (shape A) (shape B) /\
+    forall o, inb (shape R) o ->
+      get (r0 Op) R o = ssum Op (permute 0 m1 (shape A))
+                    (fun c => rmul Op (get (r0 Op) A (td_ia m1 (ndim A) c o)) (get (r0 Op) B (td_ib m1 m2 b1 b2 (ndim A) (ndim B) c o))).
+Proof. exact @tensordot_e_spec_valid. Qed.
+Print Assumptions C02_tensordot_einsum.
+
+Corollary C02_tensordot_backends_agree : forall (F : Type) (Op : rops F), ring_of Op ->
+  forall (A B : tensor F) (m1 m2 b1 b2 : list nat),
+  wf A -> wf B -> 0 < prod (shape A) -> 0 < prod (shape B) -> td_valid (shape A) (shape B) m1 m2 b1 b2 ->
+  tensordot Op A B m1 m2 b1 b2 = tensordot_e Op A B m1 m2 b1 b2.
+Proof. exact @tensordot_backends_agree. Qed.
+Print Assumptions C02_tensordot_backends_agree.
+
+(* tenalg_utils._validate_contraction_modes (model: validate_contraction / norm_modes over the argument forms int, pair of
+   ints / lists, flat list; py_index n z = Python's indexing of a length-n sequence, negative entries counting from the end):
+   an accepted pair of mode lists passes the check validate_modes of the theorems above and every returned mode is the Python
+   normalisation of the given entry *)
+Theorem C02_validate_contraction_normalises : forall (s1 s2 : list nat) (l1 l2 : list Z) (m1 m2 : list nat),
+  norm_modes s1 s2 l1 l2 = Ok (m1, m2) ->
+  validate_modes s1 s2 m1 m2 = true /\
+  Forall2 (fun z i => py_index (length s1) z = Some i) l1 m1 /\ Forall2 (fun z j => py_index (length s2) z = Some j) l2 m2.
+Proof. exact @norm_modes_sound. Qed.
+Print Assumptions C02_validate_contraction_normalises.
+
+Theorem C02_py_index_spec : forall (n : nat) (z : Z) (i : nat), py_index n z = Some i ->
+  i < n /\ ((0 <= z /\ Z.of_nat i = z) \/ (z < 0 /\ Z.of_nat i = z + Z.of_nat n))%Z.
+Proof. exact @py_index_spec. Qed.
+Print Assumptions C02_py_index_spec.
+
+(* tensordot as called (tensordot_raw: validate both arguments, then the backend's routine) on explicit lists of non-negative
+   modes is the function C02_tensordot_core / C02_tensordot_einsum are about *)
+Theorem C02_tensordot_explicit_lists : forall (F : Type) (Op : rops F) (core : bool) (A B : tensor F) (m1 m2 b1 b2 : list nat),
+  tensordot_raw Op core A B (MSeq [SList (map Z.of_nat m1); SList (map Z.of_nat m2)]) (MSeq [SList (map Z.of_nat b1); SList (map Z.of_nat b2)])
+  = (if core then tensordot Op else tensordot_e Op) A B m1 m2 b1 b2.
+Proof. exact @tensordot_raw_explicit. Qed.
+Print Assumptions C02_tensordot_explicit_lists.
+
+(* modes = k (an int): the last k modes of tensor1 with the first k modes of tensor2;  batched_modes = b (an int, possibly
+   negative): mode b of each tensor *)
+Theorem C02_validate_contraction_int_modes : forall (s1 s2 : list nat) (k : nat), k <= length s1 -> k <= length s2 ->
+  (forall i, i < k -> nth (length s1 - k + i) s1 0 = nth i s2 0) ->
+  validate_contraction s1 s2 (MInt (Z.of_nat k)) false = Ok (seq (length s1 - k) k, seq 0 k).
+Proof. exact @validate_contraction_int. Qed.
+Print Assumptions C02_validate_contraction_int_modes.
+
+Theorem C02_validate_contraction_int_batched : forall (s1 s2 : list nat) (z : Z) (i j : nat),
+  py_index (length s1) z = Some i -> py_index (length s2) z = Some j -> nth i s1 0 = nth j s2 0 ->
+  validate_contraction s1 s2 (MInt z) true = Ok ([i], [j]).
+Proof. exact @validate_contraction_int_batched. Qed.
+Print Assumptions C02_validate_contraction_int_batched.
+
+(* tensordot(t1, t2, modes=k) with an int k and no batched modes is the generalised inner product inner(t1, t2, n_modes=k):
+   the int form pairs the last k modes of t1 with the first k of t2 and C02_tensordot_core's formula becomes C02_inner_core's *)
+Theorem C02_tensordot_int_modes_is_inner : forall (F : Type) (Op : rops F) (A B : tensor F) (sa sc sb : list nat),
+  wf A -> wf B -> shape A = sa ++ sc -> shape B = sc ++ sb -> 0 < prod (shape A) -> 0 < prod (shape B) ->
+  tensordot_raw Op true A B (MInt (Z.of_nat (length sc))) (MSeq []) = inner Op A B (Some (length sc)).
+Proof. exact @tensordot_int_modes_is_inner. Qed.
+Print Assumptions C02_tensordot_int_modes_is_inner.
+
+Example C02_nonvacuous_tensordot_int_modes :
+  let A : tensor Z := mk [2; 3] [1; 2; 3; 4; 5; 6]%Z in let B : tensor Z := mk [3; 2] [1; 0; -1; 2; 0; 1]%Z in
+  wf A /\ wf B /\ shape A = [2] ++ [3] /\ shape B = [3] ++ [2] /\ 0 < prod (shape A) /\ 0 < prod (shape B) /\
+  tensordot_raw ZR true A B (MInt 1%Z) (MSeq []) = Ok (mk [2; 2] [-1; 7; -1; 16]%Z) /\
+  tensordot_raw ZR false A B (MInt 1%Z) (MSeq []) = inner ZR A B (Some 1).
+Proof. exact tensordot_int_modes_is_inner_nonvacuous. Qed.
+
+Example C02_validate_contraction_forms :
+  validate_contraction [2; 3; 4] [4; 3; 5] (MInt 1%Z) false = Ok ([2], [0]) /\
+  validate_contraction [2; 3; 4] [3; 4; 5] (MInt 2%Z) false = Ok ([1; 2], [0; 1]) /\
+  validate_contraction [2; 3; 4] [3; 4; 5] (MInt 3%Z) false = Err /\
+  validate_contraction [2; 3; 4] [5; 3] (MInt (-1)%Z) false = Ok ([], []) /\
+  validate_contraction [2; 3; 4] [5; 3; 9] (MInt 1%Z) true = Ok ([1], [1]) /\
+  validate_contraction [2; 3; 4] [4; 3] (MSeq [SList [-1; 1]%Z; SList [0; -1]%Z]) false = Ok ([2; 1], [0; 1]) /\
+  validate_contraction [2; 3; 4] [4; 3] (MSeq [SInt (-1)%Z; SInt (-2)%Z]) false = Ok ([2], [0]) /\
+  validate_contraction [2; 3; 4] [2; 3; 4] (MSeq [SInt 0%Z; SInt 1%Z; SInt 2%Z]) false = Ok ([0; 1; 2], [0; 1; 2]) /\
+  validate_contraction [2; 3; 4] [2; 3; 4] (MSeq []) true = Ok ([], []) /\
+  validate_contraction [2; 3; 4] [4; 3] (MSeq [SInt (-4)%Z; SInt 0%Z]) false = Err /\
+  validate_contraction [2; 3; 4] [4; 3] (MSeq [SList [0; 1]%Z; SList [0]%Z]) false = Err /\
+  validate_contraction [2; 3; 4] [2; 3; 4] (MSeq [SInt 0%Z; SList [1]%Z; SInt 2%Z]) false = Err.
+Proof. exact validate_contraction_forms. Qed.
+
+(* the order in which the generic einsum semantics sums its (distinct) labels does not matter *)
+Theorem C02_einsum_summation_order : forall (F : Type) (Op : rops F), ring_of Op ->
+  forall (ls ls' : list (nat * nat)), Permutation ls ls' -> forall (e : env) (f : env -> F),
+  (forall e1 e2, (forall l, e1 l = e2 l) -> f e1 = f e2) -> NoDup (map fst ls) -> esum Op ls e f = esum Op ls' e f.
+Proof. exact @esum_perm. Qed.
+Print Assumptions C02_einsum_summation_order.
+
+(* multi_mode_dot: the single equation built by the einsum backend (all operands at once) evaluates to the tensor the core
+   backend computes operand by operand - any mix of matrix and vector operands, subset and listing order of modes, skip,
+   transpose; same hypotheses as C02_multi_mode_dot_core, whose index formula therefore holds for the einsum backend too *)
+Theorem C02_multi_mode_dot_backends_agree : forall (F : Type) (Op : rops F), ring_of Op ->
+  forall (T : tensor F) (Ms : list (tensor F)) (modes : option (list nat)) (skip : option nat) (tr : bool),
+  let L := filter (fun x => negb (is_skip skip (snd x))) (sort_by_mode (zip3 Ms modes)) in
+  wf T -> 0 < prod (shape T) -> NoDup (map (@t_mode F) L) -> Forall (operand_fits tr (shape T)) L ->
+  multi_mode_dot Op T Ms modes skip tr = multi_mode_dot_e Op T Ms modes skip tr.
+Proof. exact @multi_mode_dot_backends_agree. Qed.
+Print Assumptions C02_multi_mode_dot_backends_agree.
+
+Theorem C02_multi_mode_dot_einsum : forall (F : Type) (Op : rops F), ring_of Op ->
+  forall (T : tensor F) (Ms : list (tensor F)) (modes : option (list nat)) (skip : option nat) (tr : bool),
+  let L := filter (fun x => negb (is_skip skip (snd x))) (sort_by_mode (zip3 Ms modes)) in
+  wf T -> 0 < prod (shape T) -> NoDup (map (@t_mode F) L) -> Forall (operand_fits tr (shape T)) L ->
+  exists R, multi_mode_dot_e Op T Ms modes skip tr = Ok R /\ wf R /\ shape R = outs tr L 0 (shape T) /\
+    forall o, inb (shape R) o ->
+      get (r0 Op) R o = ssum Op (sizes L 0 (shape T)) (fun is_ => rmul Op (coef Op tr L 0 is_ o) (get (r0 Op) T (full L 0 is_ o))).
+Proof. exact @multi_mode_dot_e_full_natural. Qed.
+Print Assumptions C02_multi_mode_dot_einsum.
+
+(* non-vacuity of the kronecker / outer / inner theorems (review r1 1.3): hypotheses and values on concrete operands *)
+Example C02_nonvacuous_kronecker_outer_inner :
+  let A : tensor Z := mk [2; 2] [1; 2; 3; 4]%Z in
+  let B : tensor Z := mk [1; 3] [5; 6; 7]%Z in
+  let C : tensor Z := mk [2; 1] [1; -1]%Z in
+  let u : tensor Z := mk [2] [1; -2]%Z in
+  (if true then rev (skipl (Some 1) [A; B; C]) else skipl (Some 1) [A; B; C]) <> [] /\
+  kmats (rev (skipl (Some 1) [A; B; C])) /\
+  kronecker ZR [A; B; C] (Some 1) true = Ok (mk [4; 2] [1; 2; 3; 4; -1; -2; -3; -4]%Z) /\
+  kronecker_e ZR [A; B; C] (Some 1) true = kronecker ZR [A; B; C] (Some 1) true /\
+  Forall2 (fun t i => inb (shape t) i) [u; B] [[1]; [0; 2]] /\
+  outer ZR [u; B] = Ok (mk [2; 1; 3] [5; 6; 7; -10; -12; -14]%Z) /\
+  wf A /\ wf C /\ shape A = [2] ++ [2] /\ shape C = [2] ++ [1] /\ 0 < prod (shape A) /\ 0 < prod (shape C) /\
+  inner ZR A C (Some (length [2])) = Ok (mk [2; 1] [-1; -1]%Z) /\
+  inner_e ZR A C (Some 1) = inner ZR A C (Some 1).
+Proof.
+  cbv zeta. split; [discriminate|]. split; [vm_compute; repeat constructor|]. split; [vm_compute; reflexivity|].
+  split; [vm_compute; reflexivity|]. split; [repeat constructor; auto with arith|]. split; [vm_compute; reflexivity|].
+  repeat split; try (vm_compute; reflexivity); vm_compute; auto with arith.
+Qed.
+
+(* non-vacuity of the tensordot theorems: two contracted pairs listed out of order, two batched pairs listed in decreasing order *)
+Example C02_nonvacuous_tensordot :
+  let A : tensor Z := tabulate [2; 3; 2; 2] (fun i => Z.sub (Z.of_nat (ravel [2; 3; 2; 2] i)) 7%Z) in
+  let B : tensor Z := tabulate [2; 2; 3; 2; 2] (fun i => Z.sub 5%Z (Z.of_nat (ravel [2; 2; 3; 2; 2] i))) in
+  wf A /\ wf B /\ 0 < prod (shape A) /\ 0 < prod (shape B) /\
+  td_valid (shape A) (shape B) [2; 1] [0; 2] [3; 0] [1; 4] /\
+  td_shape [2; 1] [0; 2] [1; 4] (shape A) (shape B) = [2; 2; 2] /\
+  tensordot ZR A B [2; 1] [0; 2] [3; 0] [1; 4] = tensordot_e ZR A B [2; 1] [0; 2] [3; 0] [1; 4] /\
+  exists R, tensordot ZR A B [2; 1] [0; 2] [3; 0] [1; 4] = Ok R /\ shape R = [2; 2; 2].
+Proof. exact tensordot_spec_nonvacuous. Qed.
+
+(* non-vacuity of C02_multi_mode_dot_backends_agree: vector between matrices, out of mode order, one operand skipped, conjugate transpose *)
+Example C02_nonvacuous_multi_mode_dot_backends :
+  let T : tensor GI := mk [2; 1; 2] [(1, 1); (0, 2); (-1, 0); (3, -1)]%Z in
+  let M2 : tensor GI := mk [2; 3] [(1, 0); (0, 1); (2, 0); (0, -1); (1, 1); (0, 0)]%Z in
+  let M0 : tensor GI := mk [2; 1] [(0, 1); (2, -1)]%Z in
+  let v1 : tensor GI := mk [1] [(1, -2)]%Z in
+  let L := filter (fun x => negb (is_skip (Some 2) (snd x))) (sort_by_mode (zip3 [M2; v1; M0] (Some [2; 1; 0]))) in
+  wf T /\ 0 < prod (shape T) /\ NoDup (map (@t_mode GI) L) /\ Forall (operand_fits true (shape T)) L /\
+  multi_mode_dot_e GR T [M2; v1; M0] (Some [2; 1; 0]) (Some 2) true = Ok (mk [2; 3] [(-3, -1); (1, 7); (-2, 6); (-6, 3); (8, 1); (-2, -4)]%Z) /\
+  multi_mode_dot GR T [M2; v1; M0] (Some [2; 1; 0]) (Some 2) true = multi_mode_dot_e GR T [M2; v1; M0] (Some [2; 1; 0]) (Some 2) true.
+Proof. exact multi_mode_dot_backends_nonvacuous. Qed.
 
 (* outer(ts)[idx_1 ++ ... ++ idx_n] = prod_k t_k[idx_k], any number of operands of any orders *)
 Theorem C02_outer_core : forall (F : Type) (Op : rops F), ring_of Op ->
